@@ -314,6 +314,21 @@ impl InterfaceInner {
             Packet::Ipv6(packet) => packet,
         };
 
+        // Payload kinds without a 6LoWPAN encoding here (an MLD report behind a hop-by-hop header,
+        // a raw socket's packet) cannot be compressed: drop them instead of panicking.
+        match packet.payload {
+            IpPayload::HopByHopIcmpv6(..) => {
+                net_debug!("dispatch_ieee802154: dropping, hop-by-hop ICMPv6 cannot be compressed");
+                return;
+            }
+            #[cfg(feature = "socket-raw")]
+            IpPayload::Raw(_) => {
+                net_debug!("dispatch_ieee802154: dropping, raw packets cannot be compressed");
+                return;
+            }
+            _ => {}
+        }
+
         // First we calculate the size we are going to need. If the size is bigger than the MTU,
         // then we use fragmentation.
         let (total_size, compressed_size, uncompressed_size) =
